@@ -8,8 +8,10 @@
      minigo     {id, shape, exp, alt, nest, out, outcome, msg}  (the check strips prog before judging)
      variadic / select / constuse   {id, <the fields of the case, see GoMisc.tla>, outcome, out}
      pkginit    {id, imps, vars, inits, form, outcome, out}   a program of several packages (PkgInit.tla)
+     godata     {id, ops, outcome, out, msg}   a straight-line program over composite data (GoData.tla): ops = the Go texts
+                of its operations, out = the printed lines (integers), msg = the bytes of the panic message
    A record is good iff the observation is what the Go-semantics reference prescribes. *)
-EXTENDS IntALU, InitOrder, StrConv, GoMisc, PkgInit, Json, SequencesExt
+EXTENDS IntALU, InitOrder, StrConv, GoMisc, PkgInit, GoData, Json, SequencesExt
 
 (* ---- intalu *)
 AluExpectsPanic(r) == (r.op \in {"div", "rem"} /\ r.y.s = 0) \/ (r.op \in Shifts /\ r.y.s < 0)
@@ -120,10 +122,52 @@ PkgSig(r) == [fam |-> "pkginit",
                        ELSE IF PiAcyclic(r.imps) /\ r.outcome = "ok" /\ r.out = PiRefOutDecl(PkgProg(r)) THEN "import-declaration-order"
                        ELSE "other"]
 
+(* ---- godata: {id, ops, outcome, out, msg}: the reference store model of GoData.tla is run HERE on the logged operations
+   (found in the alphabet by their Go text); good iff the program ended the same way (ok, or a run-time panic of the same
+   class: the message starts with Go's text for it, the operand values Go appends are not judged) and printed the same
+   lines.  A record with an operation that the alphabet does not have (a replay of an older alphabet), or whose
+   program the reference leaves undefined (its output depends on the capacity chosen by a growing append; MC_GoData
+   does not export such programs), is not judged. *)
+GdByText == [t \in {GdOps[j].go : j \in 1..GdN} |-> CHOOSE j \in 1..GdN : GdOps[j].go = t]
+GdKnown(r) == \A j \in 1..Len(r.ops) : r.ops[j] \in DOMAIN GdByText
+GdRef(r) == GdRun([j \in 1..Len(r.ops) |-> GdByText[r.ops[j]]])
+GdStartsWith(m, pre) == Len(m) >= Len(pre) /\ SubSeq(m, 1, Len(pre)) = pre
+GdOkE(r, e) == e.und \/ (/\ r.outcome = e.outcome
+                         /\ r.out = e.out
+                         /\ (e.outcome = "panic" => GdStartsWith(r.msg, GdMsgPrefix(e.msg))))
+GdOk(r) == ~GdKnown(r) \/ GdOkE(r, GdRef(r))
+\* the first printed line that differs (one past the shorter output when one is a prefix of the other): line l is printed
+\* after operation l - 1; the signature names that operation (its Go text) and what is wrong
+GdFirstDiff(a, b) == LET n == IF Len(a) < Len(b) THEN Len(a) ELSE Len(b)
+                         DS == {l \in 1..n : a[l] # b[l]} IN
+                     IF DS = {} THEN n + 1 ELSE CHOOSE l \in DS : \A o \in DS : l <= o
+\* like: the deviation of GoData.tla (see "alt" there) under which the store model gives exactly the observed behaviour
+GdProg(r) == [j \in 1..Len(r.ops) |-> GdByText[r.ops[j]]]
+GdIsAlt(r, alt) == LET e == GdRunAlt(GdProg(r), alt) IN ~e.und /\ r.outcome = e.outcome /\ r.out = e.out
+\* (single deviations first, then their combinations: a program may run into two of them)
+GdAlts == << <<{"replace"}, "assignment-replaces-storage">>, <<{"palost"}, "write-through-array-pointer-lost">>,
+             <<{"rangelive"}, "range-over-array-not-a-copy">>,
+             <<{"replace", "palost"}, "assignment-replaces-storage+write-through-array-pointer-lost">>,
+             <<{"replace", "rangelive"}, "assignment-replaces-storage+range-over-array-not-a-copy">>,
+             <<{"palost", "rangelive"}, "write-through-array-pointer-lost+range-over-array-not-a-copy">>,
+             <<{"replace", "palost", "rangelive"}, "assignment-replaces-storage+write-through-array-pointer-lost+range-over-array-not-a-copy">> >>
+RECURSIVE GdLikeFrom(_, _)
+GdLikeFrom(r, j) == IF j > Len(GdAlts) THEN "other" ELSE IF GdIsAlt(r, GdAlts[j][1]) THEN GdAlts[j][2] ELSE GdLikeFrom(r, j + 1)
+GdLike(r) == GdLikeFrom(r, 1)
+GdSigE(r, e) ==
+  LET l == GdFirstDiff(r.out, e.out) IN
+  [fam |-> "godata", like |-> GdLike(r),
+   cause |-> IF r.outcome \notin {"ok", "panic"} THEN r.outcome
+             ELSE IF r.outcome # e.outcome THEN (IF e.outcome = "panic" THEN "missing-panic" ELSE "unexpected-panic")
+             ELSE IF r.out # e.out THEN "wrong-output" ELSE "wrong-panic-message",
+   at |-> IF l = 1 THEN "declarations" ELSE IF l - 1 > Len(r.ops) THEN "end" ELSE r.ops[l - 1],
+   after |-> IF l <= 2 \/ l - 2 > Len(r.ops) THEN "" ELSE r.ops[l - 2]]
+GdSig(r) == IF GdKnown(r) THEN GdSigE(r, GdRef(r)) ELSE [fam |-> "godata", like |-> "other", cause |-> "unknown-operation", at |-> "", after |-> ""]
+
 RecOk(r) == CASE r.fam = "intalu" -> AluOk(r) [] r.fam = "initorder" -> InitOk(r) [] r.fam = "conv" -> ConvOk(r) [] r.fam = "minigo" -> MgOk(r)
-              [] r.fam \in MiscFams -> MiscOk(r) [] r.fam = "pkginit" -> PkgOk(r)
+              [] r.fam \in MiscFams -> MiscOk(r) [] r.fam = "pkginit" -> PkgOk(r) [] r.fam = "godata" -> GdOk(r)
 Sig(r) == CASE r.fam = "intalu" -> AluSig(r) [] r.fam = "initorder" -> InitSig(r) [] r.fam = "conv" -> ConvSig(r) [] r.fam = "minigo" -> MgRecSig(r)
-            [] r.fam \in MiscFams -> MiscSig(r) [] r.fam = "pkginit" -> PkgSig(r)
+            [] r.fam \in MiscFams -> MiscSig(r) [] r.fam = "pkginit" -> PkgSig(r) [] r.fam = "godata" -> GdSig(r)
 Cause(r) == <<r.fam, Sig(r).cause>>
 
 (* ---- record-walk skeleton (as in spec/lib2/Trace_HTMLEscape.tla).  One difference: when more than 400 records are bad, the list
